@@ -268,12 +268,22 @@ inductive Op where
   | unlinkSource (holder src : Nat)
   | delete (k : Nat)
   | reopen
+  /-- `dest.copy_section(src, children, keep_id=False, name)`; `dest = none`: `File.copy_section` -/
+  | copySection (src : Nat) (dest : Option Nat) (name : String) (children : Bool)
   deriving Repr
 
 def newNode (k : Nat) (name type : String) (cp : Option Nat) : Node :=
   .mk { key := k, name := name, type := type, md := none, cparent := cp } []
 
 def hasName (cs : List Node) (name : String) : Bool := cs.any fun c => c.name == name
+
+/-- what `copy_section(keep_id=False)` makes of a section (`H5Ocopy` + `change_id` on every member): the
+same shape in the same order — without the subsections when `children=False` (shallow copy) —, the top
+renamed, every id renewed (the stand-in for the new uuid of the entity with key `k` is `k + off`), and the
+handle returned is re-fetched (`self.sections[name]`), so no `_sec_parent` anywhere in the copy. -/
+def copyNode (off : Nat) (name : String) (children : Bool) (n : Node) : Node :=
+  let g : Info → Info := fun i => { i with key := i.key + off, cparent := none }
+  .mk { g n.info with name := name } (if children then mapInfoL g n.children else [])
 
 /-- set / clear the metadata link of the entity a key denotes -/
 def File.setMd (f : File) (e : Nat) (v : Option Nat) : Except Err File :=
@@ -372,6 +382,26 @@ def step (f : File) : Op → Except Err (File × Option Nat)
   | .reopen =>
     -- every handle is re-fetched afterwards: no `_sec_parent` survives
     .ok ({ f with sections := mapInfoL (fun i => { i with cparent := none }) f.sections }, none)
+  | .copySection s dest name children =>
+    match findL? s f.sections with
+    | none => .error .keyError
+    | some n =>
+      -- `if not name: name = str(obj.name)`
+      let nm := if name.isEmpty then n.name else name
+      -- the copy is a snapshot of the section as it is before the call (also when the destination lies
+      -- inside it); all `f.next` ids so far are below `f.next`, so `key + f.next` is fresh
+      let c := copyNode f.next nm children n
+      match dest with
+      | none =>
+        -- `if name in self._metadata: raise NameError` (reported as duplicateName)
+        if hasName f.sections nm then .error .duplicateName else
+        .ok ({ f with sections := f.sections ++ [c], next := f.next + f.next }, some (n.key + f.next))
+      | some d =>
+        match findL? d f.sections with
+        | none => .error .keyError
+        | some p =>
+          if hasName p.children nm then .error .duplicateName else
+          .ok ({ f with sections := insertUnderL d c f.sections, next := f.next + f.next }, some (n.key + f.next))
 
 /-- a refused operation leaves the state alone -/
 def apply (f : File) (op : Op) : File :=
